@@ -60,6 +60,11 @@ class Architecture:
             while subtrees[config]:
                 tree = subtrees[config].pop()
 
+                # A level reachable more than once (e.g., through a YAML
+                # alias) has already been expanded
+                if "num" in tree.keys():
+                    continue
+
                 if "name" not in tree.keys():
                     raise ValueError("Unnamed subtree: " + repr(tree))
 
